@@ -645,6 +645,10 @@ val find_entry : 'a1 token list -> pos -> 'a1 token option
 
 val chain : pos token list -> 'a1 token list -> 'a1 token list
 
+val keep_sourced : 'a1 option token list -> 'a1 token list
+
+val chain_opt : pos token list -> 'a1 option token list -> 'a1 token list
+
 val b64_alphabet : char list
 
 val index_of : char -> char list -> n -> n option
